@@ -89,4 +89,5 @@ func runC14(c *Ctx) {
 	L.Trusts("effect table for standard-library callees (sa/rules/e3_effects.go)")
 	c.checkLoopTables("per-iteration-table", "align")
 	L.Floor("per-iteration-table", 3, "five listed accumulating tables of package align plus the scope line")
+	c.checkEntropyFormula("entropy-formula")
 }
